@@ -241,7 +241,8 @@ func (e *Engine) merge(fr *Frame, b *ssa.BasicBlock, ins []edgeIn) *State {
 	st.guard = reach
 	// cells present in all
 	first := ins[0].st
-	for a, c0 := range first.cells {
+	for _, a := range sortedCells(first.cells) {
+		c0 := first.cells[a]
 		all := true
 		same := true
 		for _, in := range ins[1:] {
@@ -601,10 +602,12 @@ func (e *Engine) enterLoop(fr *Frame, l *Loop, pre *State) *State {
 	savedRets := len(fr.rets)
 	e.quiet++
 	d := pre.clone()
-	for a, c := range d.cells {
+	for _, a := range sortedCells(d.cells) {
+		c := d.cells[a]
 		d.cells[a] = &Cell{Name: c.Name, V: e.freshLike(c.V, "disc."+c.Name)}
 	}
-	for k, t := range d.heap {
+	for _, k := range sortedHeapKeys(d.heap) {
+		t := d.heap[k]
 		d.heap[k] = e.fresh(t.Sort, "discM")
 	}
 	d.alloc = e.fresh(e.rs(), "discalloc")
@@ -653,7 +656,7 @@ func (e *Engine) enterLoop(fr *Frame, l *Loop, pre *State) *State {
 	}
 	// havoc
 	st := pre.clone()
-	for a := range chCells {
+	for _, a := range sortedAllocSet(chCells) {
 		c := st.cells[a]
 		if c == nil {
 			continue
@@ -963,7 +966,8 @@ func (e *Engine) mergeIte(fr *Frame, b *ssa.BasicBlock, ins []edgeIn, st *State,
 	first := ins[0].st
 	st.base = first.base
 	st.alloc = first.alloc
-	for a, c0 := range first.cells {
+	for _, a := range sortedCells(first.cells) {
+		c0 := first.cells[a]
 		all := true
 		var vals []Val
 		for _, in := range ins {
@@ -1044,4 +1048,40 @@ func pickRep(vals []Val) Val {
 		return p
 	}
 	return vals[0]
+}
+
+// sortedCells / sortedAllocSet: deterministic iteration order (source position, then name), so that the generated
+// verification conditions are byte-identical from run to run.
+func sortedCells(m map[*ssa.Alloc]*Cell) []*ssa.Alloc {
+	var ks []*ssa.Alloc
+	for a := range m {
+		ks = append(ks, a)
+	}
+	sortAllocs(ks)
+	return ks
+}
+
+func sortedAllocSet(m map[*ssa.Alloc]bool) []*ssa.Alloc {
+	var ks []*ssa.Alloc
+	for a := range m {
+		ks = append(ks, a)
+	}
+	sortAllocs(ks)
+	return ks
+}
+
+func sortAllocs(ks []*ssa.Alloc) {
+	sort.Slice(ks, func(i, j int) bool {
+		a, b := ks[i], ks[j]
+		if a.Pos() != b.Pos() {
+			return a.Pos() < b.Pos()
+		}
+		if a.Comment != b.Comment {
+			return a.Comment < b.Comment
+		}
+		if a.Parent() != b.Parent() && a.Parent() != nil && b.Parent() != nil {
+			return a.Parent().String() < b.Parent().String()
+		}
+		return a.Name() < b.Name()
+	})
 }
